@@ -11,6 +11,7 @@ import (
 	_ "net/http/pprof"
 	"os"
 	"os/signal"
+	"regexp"
 	"runtime"
 	"runtime/pprof"
 	"syscall"
@@ -67,8 +68,18 @@ func readConfigFile(config_file string) string {
 		log.Fatalf("Couldn't read config file %q: %s", config_file, err.Error())
 	}
 
-	return os.Expand(string(data), expandVars)
+	return expandConfig(string(data))
 
+}
+
+// configVar matches the variables that are interpolated in the config file, as $NAME or ${NAME}.
+// Every other '$' sequence (e.g. $1 or ${1} in rewriter and aggregation templates) is not ours to touch.
+var configVar = regexp.MustCompile(`\$(\{(HOST|GRAFANA_NET_ADDR|GRAFANA_NET_API_KEY|GRAFANA_NET_USER_ID)\}|(HOST|GRAFANA_NET_ADDR|GRAFANA_NET_API_KEY|GRAFANA_NET_USER_ID)\b)`)
+
+func expandConfig(data string) string {
+	return configVar.ReplaceAllStringFunc(data, func(tok string) string {
+		return expandVars(strings.Trim(tok, "${}"))
+	})
 }
 
 func expandVars(in string) (out string) {
